@@ -708,7 +708,23 @@ static void eq_case(Rng & rng, const std::string & tier, long sub) {
         }
         x.push_back(cm.getDiscount()); y.push_back(flat.getDiscount());
         eq_line("CooperativeModel", "single_factor_differs_from_flat", "exact", x, y);
-        // deterministic rows make sampleSR comparable too
+        // deterministic rows make sampleSR comparable too: a second model whose every row is a point mass
+        {
+            DDNCase c2; c2.S = {n}; c2.A = {m}; makeDDN(rng, c2, true);
+            for (long r = 0; r < c2.T[0].rows(); ++r) { c2.T[0].row(r).setZero(); c2.T[0](r, (long)rng.below(n)) = 1.0; }
+            FM_::CooperativeModel cm2(*c2.g, c2.T, R, gamma);
+            std::vector<double> u, v;
+            for (size_t s = 0; s < n; ++s) for (size_t a = 0; a < m; ++a) {
+                auto [s1, r] = cm2.sampleSR({s}, {a});
+                size_t want = 0; for (size_t k = 0; k < n; ++k) if (c2.T[0]((long)(a * n + s), (long)k) == 1.0) want = k;
+                u.push_back((double)s1[0]); v.push_back((double)want);
+                u.push_back(r); v.push_back(R.bases[0].values((long)s, (long)a));
+                auto [s1b, rs] = cm2.sampleSRs({s}, {a});
+                u.push_back((double)s1b[0]); v.push_back((double)want);
+                u.push_back(rs.sum()); v.push_back(R.bases[0].values((long)s, (long)a));
+            }
+            eq_line("CooperativeModel", "single_factor_sampling_differs_from_flat", "exact", u, v);
+        }
         // FlattenedModel over a factored bandit: sampleR(a) = Σ_groups arm_g[toIndexPartial(group, A, toFactors(A, a))]
         F::Factors A = randSpace(rng, 3, 3, 18);
         bool single = rng.coin();
